@@ -531,12 +531,18 @@ func c02Run(env *verifsim.Env, raw json.RawMessage) *verifsim.Violation {
 		// everything a user could hold during this round: what it has now, what it ends with, and every channel a
 		// grant operation of the round names
 		during := map[string]map[string]bool{}
+		roleStart := map[string]bool{} // what role r1 carries when the round starts (a user may be given the role in the round)
 		if cerr := s.Call(fmt.Sprintf("eff-start%d", rd), func() {
 			a := n.dbc.Authenticator(n.ctx)
 			for _, un := range c02Users {
 				during[un] = map[string]bool{}
 				if u, err := a.GetUser(un); err == nil && u != nil {
 					during[un] = effOf(u)
+				}
+			}
+			if role, err := a.GetRole("r1"); err == nil && role != nil {
+				for c := range role.CollectionChannels(base.DefaultScope, base.DefaultCollection) {
+					roleStart[c] = true
 				}
 			}
 		}); cerr != nil {
@@ -547,6 +553,14 @@ func c02Run(env *verifsim.Env, raw json.RawMessage) *verifsim.Violation {
 				if op.Kind == "user" || op.Kind == "role" {
 					for _, un := range c02Users {
 						for _, c := range op.Chans {
+							during[un][c] = true
+						}
+					}
+				}
+				if op.Kind == "user" && len(op.Roles) > 0 {
+					// the user is given the role while the role still carries what it had when the round started
+					for _, un := range c02Users {
+						for c := range roleStart {
 							during[un][c] = true
 						}
 					}
